@@ -1611,3 +1611,51 @@ func (S *sidesInfo) eqCompare(ins ssa.Instruction) (sdEqCmp, bool) {
 	}
 	return sdEqCmp{}, false
 }
+
+// itemTest decodes a branch condition as a nil test of a stack item or of an
+// item's link: `it == nil`, `it.link != nil` (either operand order, through
+// `!`), or a call of a private predicate method whose single return is such a
+// test of its receiver's link (`func (it *iterItem) isLink() bool { return
+// it.link != nil }`) — then the item is the receiver argument and the
+// polarity is read off the predicate.
+func (S *sidesInfo) itemTest(cond ssa.Value) (item ssa.Value, linkTest bool, trueMeansNonNil bool, ok bool) {
+	if v, tnn, isNil := ir.NilTest(cond); isNil {
+		if it, isLink := S.itemLink(v); isLink {
+			return it, true, tnn, true
+		}
+		return ir.ResolveCell(ir.Strip(v)), false, tnn, true
+	}
+	neg := false
+	for {
+		u, isU := cond.(*ssa.UnOp)
+		if !isU || u.Op != token.NOT {
+			break
+		}
+		cond, neg = u.X, !neg
+	}
+	call, isCall := cond.(*ssa.Call)
+	if !isCall {
+		return nil, false, false, false
+	}
+	fn := ir.Callee(call.Common())
+	if fn == nil || !isOwn(S.P, fn) || fn.Object() == nil || fn.Object().Exported() || fn.Signature.Results().Len() != 1 || !sdIsBool(fn.Signature.Results().At(0).Type()) {
+		return nil, false, false, false
+	}
+	rets := ir.Returns(fn)
+	if len(rets) != 1 {
+		return nil, false, false, false
+	}
+	v, tnn, isNil := ir.NilTest(rets[0].Results[0])
+	if !isNil {
+		return nil, false, false, false
+	}
+	it, isLink := S.itemLink(v)
+	if !isLink {
+		return nil, false, false, false
+	}
+	pi := sdParamIndex(fn, it)
+	if pi < 0 || pi >= len(call.Call.Args) {
+		return nil, false, false, false
+	}
+	return ir.ResolveCell(ir.Strip(call.Call.Args[pi])), true, tnn != neg, true
+}
